@@ -66,12 +66,7 @@ func (oracleC05) Step(x *OCtx, t *Trans) []Violation {
 	case "bind":
 		o := t.Pre.OwnerOf(a.Prov)
 		foreign := o != nil && !bytes.Equal(o, a.Signer)
-		reserved := false
-		for _, ms := range x.Sc.Rig.ModuleServices {
-			if ms.Service == a.Svc {
-				reserved = true
-			}
-		}
+		reserved := x.Rig.reserved[a.Svc] // the keeper accepted a host module's registration of that name
 		x.Wit(fmt.Sprintf("C05:bind/foreign-provider=%v/reserved=%v/%s", foreign, reserved, t.Res.Outcome()))
 		if ok && foreign {
 			add("provider-of-another-owner-cannot-be-bound", who, fmt.Sprintf("bind of provider %s (owner %s) by %s succeeded", nameOf(a.Prov), nameOf(o), who))
